@@ -377,6 +377,12 @@ Section Noise.
       else do_body s1 (firstN n hdr) 1
     end.
 
+  (* releaseBuffers (also Conn.ClearPendingSend): the references to a buffered
+     header / body are dropped, whatever is left of them is never written.  The
+     buffer pools the byte slices are returned to are process-wide runtime
+     state outside this model: here nothing is shared between two senders. *)
+  Definition release_buffers (s : sender) : sender := mkSnd (sn_cs s) [] [].
+
   (* ---------------- transport: receiver ---------------- *)
   (* ReadHeader on a reader holding [stream]; returns the rest of the stream.
      io.ReadFull consumes whatever is there when it hits EOF. *)
